@@ -537,6 +537,9 @@ public:
 
     auto prev_nodes = m_iterator->m_cfg.prev_nodes(head);
     AbstractValue pre = std::move(make_bottom());
+    // The initial value if the analysis starts in this cycle: it flows
+    // into the head in addition to the predecessors.
+    AbstractValue entry_pre = std::move(make_bottom());
     wto_nesting_t cycle_nesting = get_nesting(head);
 
     if (entry_in_this_cycle) {
@@ -546,6 +549,7 @@ public:
                                  head)
                           << "\n");
       pre = m_iterator->get_pre(m_entry);
+      entry_pre = pre;
     } else {
       crab::CrabStats::count("Fixpo.join_predecessors");
       crab::ScopedCrabStats __st__("Fixpo.join_predecessors");
@@ -575,6 +579,9 @@ public:
       AbstractValue new_pre = std::move(make_bottom());
       for (basic_block_label_t prev : prev_nodes) {
         new_pre |= m_iterator->get_post(prev);
+      }
+      if (entry_in_this_cycle) {
+        new_pre |= entry_pre;
       }
       crab::CrabStats::stop("Fixpo.join_predecessors");
       crab::CrabStats::resume("Fixpo.check_fixpoint");
@@ -609,6 +616,9 @@ public:
       AbstractValue new_pre = std::move(make_bottom());
       for (basic_block_label_t prev : prev_nodes) {
         new_pre |= m_iterator->get_post(prev);
+      }
+      if (entry_in_this_cycle) {
+        new_pre |= entry_pre;
       }
       crab::CrabStats::stop("Fixpo.join_predecessors");
       crab::CrabStats::resume("Fixpo.check_fixpoint");
